@@ -4,7 +4,6 @@ Spec/Roborta.v and Model/Board.v's gen_A/B/C, all sizes, all boards). This modul
 roberta_generator.py (Coq correspondence on the file read back) and, independently of Coq, builds the
 rule game in Python from the prose rules and checks by partition refinement that each game read back
 is bisimilar to it from the initial state."""
-from concurrent.futures import ProcessPoolExecutor
 from fractions import Fraction
 from common import enc, dec, P1, P2, PR
 import impl
@@ -127,10 +126,27 @@ def bisimilar(case, key, g):
         block = sigs
     if block[("r", init)] == block[("g", 0)]:
         return None
-    # diagnosis: walk both games in lock step along the transition lists until something differs
+    # diagnosis only (the verdict above does not use the generator's numbering): walk both games in lock step
+    # along the transition lists, following pairs that agree with the numbering group*L*W + i*W + j
+    L, W = case["L"], case["W"]
+    order = {"A": ["Light", "Down", "LR", "Land"],
+             "B": ["Light", "Down", "LR", "Land", "TryDown", "TryLeft", "TryRight"],
+             "C": ["Light", "Down", "LR", "Free", "Land", "TryDown", "TryLeft", "TryRight", "SigGreen", "SigYellow"]}[variant]
+
+    def number(s):
+        if s[0] == "Lost":
+            return len(order) * L * W
+        if s[0] == "Won":
+            return len(order) * L * W + 1
+        return order.index(s[0]) * L * W + s[1] * W + s[2]
+
+    def name(k):
+        if k >= len(order) * L * W:
+            return ["Lost", "Won"][k - len(order) * L * W] if k - len(order) * L * W < 2 else "?"
+        return "%s(%d,%d)" % (order[k // (L * W)], (k % (L * W)) // W, k % W)
     seen, todo = set(), [(init, 0)]
     while todo:
-        s, k = todo.pop()
+        s, k = todo.pop(0)
         if (s, k) in seen:
             continue
         seen.add((s, k))
@@ -141,15 +157,18 @@ def bisimilar(case, key, g):
         if [x for x, _ in a[3]] != [x for x, _ in b[3]]:
             return "%s: rule state %s offers %s but state %d offers %s" % (key, s, [x for x, _ in a[3]], k, [x for x, _ in b[3]])
         for (x, t), (_, u) in zip(a[3], b[3]):
-            if block[t] != block[u]:
-                return "%s: from rule state %s, %r leads to %s, but from state %d it leads to state %d, which behaves differently" % (
-                    key, s, x, t[1], k, u[1])
-            todo.append((t[1], u[1]))
+            if block[t] != block[u] and number(t[1]) != u[1]:
+                return ("%s: by the rules, %r from %s leads to %s; in the file, state %d [%s] goes to state %d [%s], "
+                        "which is not bisimilar to it") % (key, x, s, t[1], k, name(k), u[1], name(u[1]))
+            if number(t[1]) == u[1]:
+                todo.append((t[1], u[1]))
     return "%s: not bisimilar to the rule game from the initial state" % key
 
 
 def item_check(arg):
     case, games = arg
+    if "moves" not in case:
+        return []
     bad = bc.well_shaped(games)
     if bad:
         return [bad]
@@ -164,19 +183,8 @@ def item_check(arg):
     return out
 
 
-_pool = None
-
-
-def pool():
-    global _pool
-    if _pool is None:
-        _pool = ProcessPoolExecutor(max_workers=16)
-    return _pool
-
-
-def check_items(ctx, items):
-    todo = []
-    for it in items:
+def check_items(ctx, lights):
+    for it in lights:
         ctx.evaluations += 1
         c = it["case"]
         if "moves" not in c:
@@ -185,49 +193,36 @@ def check_items(ctx, items):
         ctx.count("%s:%dx%d" % (it["src"], c["L"], c["W"]) if c["L"] * c["W"] <= 4 else "%s:>4 tiles" % it["src"])
         if c["L"] * c["W"] >= 2:
             ctx.nontrivial.add(bc.case_key(c))
-        if it["games"] is None:
-            r = {k: v for k, v in it["res"].items() if k not in ("text", "ok", "read")}
+        if not it["has_games"]:
+            r = it["res"]
             ctx.violation("no loadable three-game file was produced (%s)" % (r.get("exc") or r.get("read_exc") or r),
                           bc.public(c), impl=r)
-            continue
-        todo.append(it)
-    args = [(it["case"], it["games"]) for it in todo]
-    res = list(pool().map(item_check, args, chunksize=128)) if len(args) > 500 else [item_check(a) for a in args]
-    for it, pr in zip(todo, res):
-        if pr:
-            ctx.violation("; ".join(pr[:3]), bc.public(it["case"]), src=it["src"])
+        elif it.get("problems"):
+            ctx.violation("; ".join(it["problems"][:3]), bc.public(c), src=it["src"])
 
 
 def d3_regression(ctx):
     """the D3 witness (one-column board, game A) is kept as a regression input"""
     c = dict(L=2, W=1, moves=[[1], [1]], rewards=[[0], [0]], loose=[[0], [0]], ptb=0.1, prb=0.1, plb=0.1)
-    items = bc.run_batch([("corpus", c, True)], "c08d3")
-    bc.correspondence(ctx, items, "c08d3")
-    check_items(ctx, items)
-    if items[0]["games"]:
-        ctx.sample(dict(board=bc.public(c), game_a_transitions=str(items[0]["games"]["game_a"]["transition_list"])))
+    lights = bc.process_batch(ctx, [("corpus", c, True, True)], "c08d3", "c08")
+    check_items(ctx, lights)
+    if lights[0].get("games"):
+        ctx.sample(dict(board=bc.public(c), game_a_transitions=str(lights[0]["games"]["game_a"]["transition_list"])))
 
 
 def run(ctx):
     import time
-    tm = {"impl": 0.0, "coq": 0.0, "bisimulation": 0.0}
+    t0 = time.time()
     d3_regression(ctx)
     nb = 0
     for batch in bc.case_batches(ctx, "c08"):
-        t0 = time.time()
-        items = bc.run_batch(batch, "c08_%d" % nb)
-        t1 = time.time()
-        bc.correspondence(ctx, items, "c08_%d" % nb)
-        t2 = time.time()
-        check_items(ctx, items)
-        tm["impl"] += t1 - t0; tm["coq"] += t2 - t1; tm["bisimulation"] += time.time() - t2
+        lights = bc.process_batch(ctx, [(s, c, m, False) for s, c, m in batch], "c08_%d" % nb, "c08")
+        check_items(ctx, lights)
         nb += 1
+    ctx.notes.append("seconds for the board batches (implementation, bisimulation check, Coq): %.1f" % (time.time() - t0))
     entry = bc.build_entry_items(ctx, "c08e")
-    bc.correspondence(ctx, entry, "c08e")
-    check_items(ctx, [it for it in entry if "moves" in it["case"]])
-    ctx.notes.append("seconds per phase (board batches): %s" % {k: round(v, 1) for k, v in tm.items()})
-    if _pool is not None:
-        _pool.shutdown()
+    check_items(ctx, bc.process_items(ctx, entry, "c08e", "c08", keep=False))
+    bc.shutdown()
 
 
 def replay(ctx, data):
@@ -235,13 +230,10 @@ def replay(ctx, data):
     if v is None or "moves" not in v:
         print("nothing to replay (no failing board recorded)")
         return 1
-    items = bc.run_batch([("replay", v, True)], "c08r")
-    bc.correspondence(ctx, items, "c08r")
-    check_items(ctx, items)
+    check_items(ctx, bc.process_batch(ctx, [("replay", v, True, False)], "c08r", "c08"))
     for x in ctx.violations:
         print("violation:", x["what"])
     for x in ctx.corr_breaks:
         print("model/implementation mismatch:", x["what"])
-    if _pool is not None:
-        _pool.shutdown()
+    bc.shutdown()
     return 1 if (ctx.violations or ctx.corr_breaks) else 0
